@@ -45,11 +45,15 @@ pub struct SibCase {
   /// it is never handed a sample that was written before it joined (such samples reach the participant as repairs
   /// addressed to the first reader).
   pub second_best_effort: bool,
+  /// the second reader asks for ResourceLimits max_samples = 16 while the first one has 1 000 000, the writer
+  /// sends 130-260 samples without loss and nobody takes before the end: the first reader must still get all of
+  /// them (its own limits are far away); the second reader is not judged in these histories
+  pub second_small_limits: bool,
   pub events: Vec<SEv>,
 }
 
 pub fn case_json(c: &SibCase) -> Value {
-  json!({"keyed": c.keyed, "second_reader_joins_at_event": c.second_joins_at, "late_second_reader_is_transient_local": c.second_is_tl, "uniform_addressing": c.uniform, "second_reader_is_best_effort": c.second_best_effort, "events": c.events.iter().map(|e| format!("{e:?}")).collect::<Vec<_>>()})
+  json!({"keyed": c.keyed, "second_reader_joins_at_event": c.second_joins_at, "late_second_reader_is_transient_local": c.second_is_tl, "uniform_addressing": c.uniform, "second_reader_is_best_effort": c.second_best_effort, "second_reader_max_samples_16": c.second_small_limits, "events": c.events.iter().map(|e| format!("{e:?}")).collect::<Vec<_>>()})
 }
 
 pub fn gen_case(rng: &mut Rng) -> SibCase {
@@ -58,6 +62,16 @@ pub fn gen_case(rng: &mut Rng) -> SibCase {
 
 /// `late_best_effort`: the second reader always joins late, is Volatile and best-effort, traffic is per reader
 pub fn gen_case_kind(rng: &mut Rng, late_best_effort: bool) -> SibCase {
+  if !late_best_effort && rng.chance(1, 40) {
+    // long loss-free history next to a reader with small resource limits
+    let keyed = rng.chance(1, 2);
+    let n = 130 + rng.below(131) as usize;
+    let second_joins_at = if rng.chance(1, 2) { 0 } else { 1 + rng.below(n as u64 / 2) as usize };
+    let mut events: Vec<SEv> = (0..n).map(|_| SEv::Push { lost: false }).collect();
+    events.push(SEv::Heartbeat);
+    events.push(SEv::Take { who: 0 });
+    return SibCase { keyed, second_joins_at, second_is_tl: true, uniform: false, second_best_effort: false, second_small_limits: true, events };
+  }
   let keyed = rng.chance(1, 2);
   let n = 6 + rng.below(30) as usize;
   let second_joins_at = if rng.chance(1, 3) || late_best_effort { 1 + rng.below(n as u64 / 2) as usize } else { 0 };
@@ -166,7 +180,7 @@ pub fn gen_case_kind(rng: &mut Rng, late_best_effort: bool) -> SibCase {
   events.push(SEv::Heartbeat);
   events.push(SEv::Take { who: 0 });
   events.push(SEv::Take { who: 1 });
-  SibCase { keyed, second_joins_at, second_is_tl, uniform, second_best_effort: late_best_effort, events }
+  SibCase { keyed, second_joins_at, second_is_tl, uniform, second_best_effort: late_best_effort, second_small_limits: false, events }
 }
 
 pub struct SibOutcome {
@@ -224,14 +238,18 @@ pub fn run_case(case: &SibCase, acc: &mut Acc, tag: &Value) -> SibOutcome {
     }
   };
   // per-reader addressing is where the two readers' states can diverge; identical traffic must never go wrong
-  let sfx = if case.uniform { ":identical-traffic" } else { ":per-reader-traffic" };
+  let sfx = if case.second_small_limits { ":second-reader-has-small-resource-limits" } else if case.uniform { ":identical-traffic" } else { ":per-reader-traffic" };
   let mut violated = false;
   for (ei, ev) in case.events.iter().enumerate() {
     if violated {
       break;
     }
     if !joined1 && ei >= case.second_joins_at {
-      let idx = rb.add_sibling(flavor, !case.second_best_effort, case.second_joins_at == 0 || case.second_is_tl, [0, 0, 0x52]);
+      let idx = if case.second_small_limits {
+        rb.add_sibling_with_limits(flavor, true, true, [0, 0, 0x52], 16)
+      } else {
+        rb.add_sibling(flavor, !case.second_best_effort, case.second_joins_at == 0 || case.second_is_tl, [0, 0, 0x52])
+      };
       rb.sibling_match_writer(idx, wg, true, reply);
       eids.push(rb.sibling_entity_id(idx));
       joined1 = true;
@@ -368,7 +386,7 @@ pub fn run_case(case: &SibCase, acc: &mut Acc, tag: &Value) -> SibOutcome {
   // complete: after the fault-free suffix each reader holds everything that was sent to it and not gapped for it
   if !violated {
     for who in 0..eids.len() {
-      if who == 1 && case.second_best_effort {
+      if who == 1 && (case.second_best_effort || case.second_small_limits) {
         continue;
       }
       let got: BTreeSet<i64> = handed[who].iter().copied().collect();
